@@ -15,7 +15,8 @@ RULE = ("core: 3-16 variant columns, 2-45 reads with >= 2 variants each (contigu
         "selected subset of indices, span coverage <= k at every column, and every unselected read spans a column that "
         "is already at k (maximality). Non-trivial = some column reaches k and at least one read is rejected. cli: "
         "whatshap phase on generated deep read sets (single samples and trios, --internal-downsampling k >= family "
-        "size); the reads in the solver-instance trace of one family never span a variant more than k times. "
+        "size; a third of the cases add 1-3 phased VCFs as phase inputs (pseudo reads of preferred sources), half of those "
+        "without any alignment file); the reads in the solver-instance trace of one family never span a variant more than k times. "
         "Distinct = distinct generated case.")
 ASSUMPTIONS = [
     "every read covers at least two variants (readselection raises ValueError otherwise; phase filters such reads first)",
@@ -143,12 +144,15 @@ class CliPart:
                 k = draw(st.sampled_from([1, 2, 3, 5, 8, 15]))
             c["family"] = fam
             c["k"] = k
-            # a phased VCF as additional phase input: its phase sets become pseudo reads of a preferred source, which the
-            # selection takes first; the cap must hold for pseudo reads and alignments together
-            if fam == "single" and draw(st.integers(0, 2)) == 0:
-                c["phased_vcf_subset"] = {s: {cc["name"]: {vi: draw(st.integers(1, 3)) for vi in range(len(c["variants"][cc["name"]]))
-                                                          if draw(st.integers(0, 3)) != 0}
-                                              for cc in c["contigs"]} for s in c["samples"]}
+            # phased VCFs as phase inputs: their phase sets become pseudo reads of preferred sources, which the selection
+            # takes first; the cap must hold for pseudo reads and alignments together - also when there is no alignment
+            # file at all (up to three VCFs, so that 2 pseudo reads per VCF and set exceed small caps)
+            if draw(st.integers(0, 2)) == 0:
+                c["phase_vcfs"] = [{s: {cc["name"]: {vi: draw(st.integers(1, 3)) for vi in range(len(c["variants"][cc["name"]]))
+                                                     if draw(st.integers(0, 3)) != 0}
+                                        for cc in c["contigs"]} for s in c["samples"]}
+                                   for _ in range(draw(st.integers(1, 3)))]
+                c["no_bam"] = draw(st.booleans())
             return c
         return case()
 
@@ -162,15 +166,16 @@ class CliPart:
         kw = {}
         if case["family"] == "trio":
             kw["ped"] = G.write_ped([["father", "mother", "child"]], os.path.join(d, "trio.ped"))
-        inputs = [paths["bam"]]
-        if case.get("phased_vcf_subset"):
-            ph = {s: {cn: {int(vi): ps for vi, ps in vis.items()} for cn, vis in per.items()} for s, per in case["phased_vcf_subset"].items()}
-            inputs.append(G.write_vcf(case, os.path.join(d, "prior_phase.vcf"), phased=ph))
-            ctx.label("phased-vcf-as-additional-input")
+        inputs = [] if case.get("no_bam") and case.get("phase_vcfs") else [paths["bam"]]
+        for n, sub in enumerate(case.get("phase_vcfs", [])):
+            ph = {s: {cn: {int(vi): ps for vi, ps in vis.items()} for cn, vis in per.items()} for s, per in sub.items()}
+            inputs.append(G.write_vcf(case, os.path.join(d, "prior_phase%d.vcf" % n), phased=ph))
+        if case.get("phase_vcfs"):
+            ctx.label("phased-vcf-inputs-%d%s" % (len(case["phase_vcfs"]), "-without-alignments" if case.get("no_bam") else ""))
         out, trace = P.run_phase(d, paths["vcf"], inputs, reference=paths["ref"], max_coverage=case["k"], **kw)
         k = case["k"]
         nt = False
-        if case.get("phased_vcf_subset") and any(r["source_id"] >= 1 for t in trace for r in t["reads"]):
+        if case.get("phase_vcfs") and any(r["source_id"] >= (0 if case.get("no_bam") else 1) for t in trace for r in t["reads"]):
             ctx.label("pseudo-reads-selected")
         for t in trace:
             pos = t["accessible_positions"]
